@@ -146,7 +146,7 @@ let rec p_entries (l : string list) = match l with
   | t :: i :: p :: rest -> ((n_of_string t, n_of_string i), bytes_of_hex p) :: p_entries rest
   | _ -> failwith "bad entries"
 
-type xop = Op of op | Disk   (* K: print the directory (after the model's queue is idle) *)
+type xop = Op of op | Disk | Resident  (* K: print the directory; H: resident cache entries *)
 
 let p_op (s : string) : xop = match toks s with
   | ["V"; t; n] -> Op (OW (OVote (n_of_string t, n_of_string n)))
@@ -165,6 +165,7 @@ let p_op (s : string) : xop = match toks s with
   | ["E"] -> Op ODrain
   | "X" :: rest -> Op (ORestart (p_cfg rest))
   | ["K"] -> Disk
+  | ["H"] -> Resident
   | _ -> failwith ("bad op: " ^ s)
 
 let split_on (sep : char) (s : string) : string list =
@@ -181,6 +182,9 @@ let run_xops (y0 : sys option) (first : string list) (ops : xop list) : string =
          | Some yy ->
            (match xo with
             | Disk -> out := str_disk yy.y_disk :: !out
+            | Resident ->
+              out := ("resident " ^ String.concat "," (List.map (fun (id, p) ->
+                  Printf.sprintf "%s:%d" (str_pair id) (List.length p)) yy.y_core.k_sm.m_cache.ch_entries)) :: !out
             | Op o ->
               let (ny, res) = run_op yy o in
               out := str_result res :: !out;
@@ -224,7 +228,7 @@ let do_spec (rest : string) : string =
     let s = ref spec0 in
     let outs = List.map (fun xo ->
         match xo with
-        | Disk -> "-"
+        | Disk | Resident -> "-"
         | Op (OW w) ->
           (match w with
            | OUpdateState _ -> "unsupported"
@@ -343,7 +347,7 @@ let rec replay (z : sys2) (evs : (int * string) list) (snaps : string list) : st
     if not z.z_w.w_alive && not (starts_with e "c end") then Some (List.rev ("worker-dead" :: snaps))
     else if starts_with e "c call " then begin
       match p_op (after e "c call ") with
-      | Disk -> fail "unsupported op in trace"
+      | Disk | Resident -> fail "unsupported op in trace"
       | Op o ->
         (match zstep z (ZCall o) with
          | None -> fail "model: call not enabled (panic or call in progress)"
